@@ -305,19 +305,25 @@ func (r *run) Step(ev *seams.Event) seams.FaultKind {
 		}
 	}
 	r.res.TimeAt = append(r.res.TimeAt, r.now)
+	eligible := false
 	if r.phase == "eval" || r.phase == "action" {
 		switch ev.Kind {
 		case "get", "field", "index", "key", "call", "setfield", "setindex", "setkey":
-			r.res.Eligible = append(r.res.Eligible, EvInfo{r.seq, ev.Kind, r.phase})
+			eligible = true
 		case "add":
-			if ev.Path != "DEFUNC" {
-				r.res.Eligible = append(r.res.Eligible, EvInfo{r.seq, ev.Kind, r.phase})
-			}
+			eligible = ev.Path != "DEFUNC"
 		}
 	}
-	// faults
+	if eligible {
+		r.res.Eligible = append(r.res.Eligible, EvInfo{r.seq, ev.Kind, r.phase})
+	}
+	// faults (a fault planned at an event that is not inside an evaluation or a firing is ignored,
+	// so that any integer is a valid fault position for the shrinker)
 	for _, f := range r.sc.Faults {
-		if f.At == r.seq {
+		if f.At == r.seq && eligible {
+			if f.Kind == "nilfact" && ev.Kind != "get" {
+				continue
+			}
 			fr := faultRec{seq: r.seq, kind: f.Kind, phase: r.phase, rule: r.curRule, w: r.firingWrites}
 			r.faults = append(r.faults, fr)
 			r.res.Faults[f.Kind+"@"+r.phase]++
